@@ -91,7 +91,7 @@ TinyRoutes == <<
     <<"65001:100">>, <<"rt:65001:100">>, <<"65001:1:1">>, "valid", FALSE),
   R(P4("10.1.0.0/16", 10, 1, 0, 0, 16), "B", "192.0.2.2", <<>>, 2, -1, 200, <<>>, <<>>, <<>>, "not-found", TRUE),
   R(P4("10.2.0.0/16", 10, 2, 0, 0, 16), "C", "192.0.2.1", <<65002, 65001>>, 1, 5, -1,
-    <<"65001:100", "65002:100">>, <<ExtLB, "rt:65002:200">>, <<>>, "invalid", FALSE),
+    <<"65001:100", "65002:100">>, <<"rt:65002:200">>, <<>>, "invalid", FALSE),
   R(P6("2001:db8:1::/48", 8193, 3512, 1, 0, 48), "D", "2001:db8:ee::1", <<65003>>, 0, -1, -1,
     <<"65100:10">>, <<>>, <<"65001:1:1", "65001:1:2">>, "valid", FALSE),
   R(P4("10.1.1.128/25", 10, 1, 1, 128, 25), "local", "192.0.2.1", <<>>, 0, -1, -1, <<>>, <<"soo:65001:100">>, <<>>, "not-found", TRUE),
